@@ -260,6 +260,49 @@ type observed struct {
 	Verts     int
 	Merged    int
 	HasNormal bool
+	mesh      modeling.Mesh // kept alive by callers that re-read it later
+	print     uint64        // fingerprint of everything the oracle reads, taken when first judged
+}
+
+// fingerprint hashes positions, normals and indices bit by bit (read through the public accessors).
+func fingerprint(P, N [][3]float64, idx []int) uint64 {
+	h := uint64(1469598103934665603)
+	mix := func(v uint64) {
+		h ^= v
+		h *= 1099511628211
+	}
+	for _, arr := range [2][][3]float64{P, N} {
+		mix(uint64(len(arr)))
+		for _, p := range arr {
+			mix(math.Float64bits(p[0]))
+			mix(math.Float64bits(p[1]))
+			mix(math.Float64bits(p[2]))
+		}
+	}
+	mix(uint64(len(idx)))
+	for _, i := range idx {
+		mix(uint64(i))
+	}
+	return h
+}
+
+// stillIntact re-reads a mesh that was judged earlier and compares it with its fingerprint.
+func stillIntact(ob *observed) (bool, string) {
+	P, N, idx, err := readMesh(ob.mesh)
+	if err != nil {
+		return false, err.Error()
+	}
+	if fingerprint(P, N, idx) == ob.print {
+		return true, ""
+	}
+	return false, fmt.Sprintf("now %d vertices, %d indices, first position %v", len(P), len(idx), firstOr(P))
+}
+
+func firstOr(P [][3]float64) any {
+	if len(P) > 1 {
+		return P[1]
+	}
+	return "-"
 }
 
 // check builds p with polyform and applies the whole oracle. It returns what
@@ -289,7 +332,7 @@ func check(c *run.Ctx, res *run.Result, p prim) *observed {
 	// dominates; it stays far below the smallest feature as long as the ratio is <= 1e12.
 	tol := ref.posTol()
 	s := analyse(P, N, idx, tol, 1e-14*ref.size*ref.size)
-	ob := &observed{Volume: s.Volume, Tris: s.Tris, Verts: len(P), Merged: s.Merged, HasNormal: N != nil}
+	ob := &observed{Volume: s.Volume, Tris: s.Tris, Verts: len(P), Merged: s.Merged, HasNormal: N != nil, mesh: m, print: fingerprint(P, N, idx)}
 	res.Count("meshes", 1)
 	res.Count("faces", int64(s.Tris))
 	res.Count("directed_edges_paired", int64(3*(s.Tris-s.Degen)))
@@ -728,12 +771,29 @@ func sequenceCase(c *run.Ctx) run.Result {
 	var calls []string
 	var last *observed
 	judged := 0
+	type kept struct {
+		p  prim
+		ob *observed
+	}
+	var alive []kept
+	// every mesh of the case stays alive; after each later constructor call (and once more at the end)
+	// all earlier meshes are read again: a mesh value must not change because another one was built
+	recheck := func(after string) {
+		for _, k := range alive {
+			res.Count("earlier_meshes_reread_after_a_later_call", 1)
+			if ok, how := stillIntact(k.ob); !ok {
+				res.Violate("earlier-mesh-changed-by-later-call", k.p.site(), k.p.Kind, fmt.Sprintf("the mesh returned by %s was correct when returned but reads differently after %s (%s): it shares memory with something the later call wrote", k.p, after, how), calls)
+			}
+		}
+	}
 	for i, p := range seq {
 		ob := check(c, &res, p)
 		calls = append(calls, p.String())
+		recheck(p.String())
 		if ob != nil {
 			last = ob
 			judged++
+			alive = append(alive, kept{p, ob})
 		}
 		if i > 0 {
 			q := seq[i-1]
@@ -749,6 +809,7 @@ func sequenceCase(c *run.Ctx) run.Result {
 		}
 		res.SetAdd("kinds", p.Kind)
 	}
+	recheck("the end of the sequence")
 	res.Count("call_sequences", 1)
 	res.Sig = fmt.Sprintf("pattern%d %s n%d", pattern, seq[0].Kind, len(seq))
 	if pattern == 0 {
@@ -763,7 +824,7 @@ func Spec() *run.Spec {
 	return &run.Spec{
 		ID: "C18", Level: "exploration",
 		Rule: "grid: every (kind, rows 2..12 x columns 3..16 | sides 3..24 | cube variant, UV option) combination, each repetition with fresh dimensions drawn over 1e-9..1e9 (common scale with ratios <= 1e3, independent log-uniform dimensions with ratio <= 1e12, named extreme aspect ratios such as 1x1x1e-7 and 1e6x1e-6x1, small integers); " +
-			"large: counts sampled log-uniformly up to 200; sequence: 2-4 constructor calls in one process, each judged (equal (rows-1)*columns pairs in both orders, kinds interleaved, identical calls repeated, unrelated resolutions); refine: doubling sequences of one primitive up to a count of 256. A case is non-trivial when the constructor returned a mesh of >= 4 faces " +
+			"large: counts sampled log-uniformly up to 200; sequence: 2-4 constructor calls in one process, each judged and every earlier mesh of the case re-read (fingerprint of positions, normals, indices) after each later call and at the end (equal (rows-1)*columns pairs in both orders, kinds interleaved, identical calls repeated, unrelated resolutions); refine: doubling sequences of one primitive up to a count of 256. A case is non-trivial when the constructor returned a mesh of >= 4 faces " +
 			"(refine: >= 4 steps); distinctness = kind + counts (bucketed by 25 in `large`) + UV option class.",
 		Assumptions: []string{
 			"admissible parameters: radius/height/width/depth > 0, rows >= 2, columns >= 3 (the constructors panic below that), cylinder sides >= 3 (Cylinder accepts 1 and 2 without complaint but a 1- or 2-gon prism is not a solid), NoTop/NoBottom false (capped cylinder)",
@@ -774,7 +835,7 @@ func Spec() *run.Spec {
 		},
 		MinNontrivial: map[string]int{"quick": 750, "thorough": 800},
 		MinObserved: map[string]int64{"kinds": 6, "meshes_with_normals_checked": 300, "refinement_steps": 100, "meshes_with_a_count_of_150_or_more": 5, "uv_options": 10, "uv_masks": 140,
-			"call_sequences": 300, "consecutive_calls_with_equal_rows_minus_1_times_columns": 100, "consecutive_identical_calls": 100, "consecutive_calls_of_different_kinds": 100,
+			"call_sequences": 300, "earlier_meshes_reread_after_a_later_call": 1000, "consecutive_calls_with_equal_rows_minus_1_times_columns": 100, "consecutive_identical_calls": 100, "consecutive_calls_of_different_kinds": 100,
 			"size_decades": 16, "meshes_with_a_dimension_below_2e-6": 200, "meshes_with_a_dimension_above_1e6": 200, "meshes_with_aspect_ratio_of_1e6_or_more": 50},
 		Phases: []run.Phase{
 			{Name: "grid", Cases: func(t string) int {
